@@ -18,10 +18,10 @@ import (
 )
 
 var (
-	reInt     = regexp.MustCompile(`^[+-]?[0-9]+`)
-	reUint    = regexp.MustCompile(`^[0-9]+`)
-	reFloat   = regexp.MustCompile(`^[+-]?([0-9]+\.?[0-9]*|\.[0-9]+)([eE][+-]?[0-9]+)?`)
-	reDecimal = regexp.MustCompile(`^-?([0-9]+\.?[0-9]*|\.[0-9]+)`)
+	reInt      = regexp.MustCompile(`^[+-]?[0-9]+`)
+	reUint     = regexp.MustCompile(`^[0-9]+`)
+	reFloat    = regexp.MustCompile(`^[+-]?([0-9]+\.?[0-9]*|\.[0-9]+)([eE][+-]?[0-9]+)?`)
+	reDecimal  = regexp.MustCompile(`^-?([0-9]+\.?[0-9]*|\.[0-9]+)`)
 	reFloatOut = regexp.MustCompile(`^-?([0-9]+\.?[0-9]*|\.[0-9]+)(e-?[0-9]+)?$`)
 )
 
@@ -299,7 +299,7 @@ func c14Decimal(c *engine.Ctx, in []byte, args map[string]string) {
 				diff := new(big.Rat).Sub(v, exact)
 				diff.Abs(diff)
 				half := new(big.Rat).SetFrac(big.NewInt(1), new(big.Int).Mul(big.NewInt(2), new(big.Int).Exp(big.NewInt(10), big.NewInt(int64(d)), nil)))
-				ulp, _ := new(big.Rat).SetString(new(big.Float).SetFloat64(8 * (math.Nextafter(math.Abs(f), math.Inf(1)) - math.Abs(f))).Text('f', -1))
+				ulp, _ := new(big.Rat).SetString(new(big.Float).SetFloat64(8*(math.Nextafter(math.Abs(f), math.Inf(1))-math.Abs(f))).Text('f', -1))
 				ok = diff.Cmp(new(big.Rat).Add(half, ulp)) <= 0 && (v.Sign() == 0 || (v.Sign() < 0) == (f < 0))
 			}
 			if !ok {
@@ -488,7 +488,7 @@ func c14Finish(c *engine.Ctx, cov map[string]interface{}) string {
 func init() {
 	register(&engine.Check{
 		ID: "C14", Level: "exploration",
-		Rule: "parsers: all strings ≤7 over {+ - 0 1 5 9 . e E x} and single-edit neighbours of 70 boundary numerals vs strconv.ParseInt/ParseUint/ParseFloat on the longest syntactic prefix; AppendInt/LenInt on {±(10^k+d), ±(2^k+d), 0, min, max}; AppendNumber→ParseNumber on that family × dec 0..18 × groupSize 0..6 × ordered pairs of distinct symbols of 1–4 UTF-8 bytes; AppendFloat on m·10^e (m≤99 quick / 999 thorough, e∈[-330,310], both signs) × prec −1..18: well-formed, right sign, within one unit of the requested last digit (big.Float); AppendDecimal on e∈[-20,15] × dec 0..18 vs big.Rat round-half-away with trailing zeros dropped; every formatter with a prefix in the destination at cap==len and with room",
+		Rule:        "parsers: all strings ≤7 over {+ - 0 1 5 9 . e E x} and single-edit neighbours of 70 boundary numerals vs strconv.ParseInt/ParseUint/ParseFloat on the longest syntactic prefix; AppendInt/LenInt on {±(10^k+d), ±(2^k+d), 0, min, max}; AppendNumber→ParseNumber on that family × dec 0..18 × groupSize 0..6 × ordered pairs of distinct symbols of 1–4 UTF-8 bytes; AppendFloat on m·10^e (m≤99 quick / 999 thorough, e∈[-330,310], both signs) × prec −1..18: well-formed, right sign, within one unit of the requested last digit (big.Float); AppendDecimal on e∈[-20,15] × dec 0..18 vs big.Rat round-half-away with trailing zeros dropped; every formatter with a prefix in the destination at cap==len and with room",
 		Assumptions: []string{"AppendDecimal is accepted if it equals round-half-away of either the shortest decimal form of the float or its exact binary value", "ParseFloat exponents longer than 18 digits are not compared"},
 		Setup:       c14Setup, Work: c14Work, Finish: c14Finish,
 	})
